@@ -3,6 +3,7 @@ package rules
 import (
 	"fmt"
 	"go/token"
+	"go/types"
 	"strings"
 
 	"golang.org/x/tools/go/ssa"
@@ -444,6 +445,75 @@ func checkIntraStreamTables(c *Ctx, res *report.Result, rule string) {
 				}
 				res.Check(started, rule, "ensureStream starts the receiver as a goroutine", instrPos(c.Prog, al), "go func() { recv.Run(...) }()", "the receiver is not started in a goroutine of its own: ensureStream (called under the caller's delivery path) would not return while the stream lives")
 			}
+		}
+	}
+}
+
+// checkReplayNeverBlocksRegistration (O2.12): the watermark replay runs synchronously inside RegisterShard, which a
+// sender calls after it registered its delivery channel but BEFORE it starts the goroutine that drains it. A replay
+// to a target that has a local channel must therefore never wait for room in that channel: in both
+// sendPendingWatermarkToShard implementations the blocking hand-over (DeliverMessagesToShardOwner) is reached only
+// on the side on which GetRemoteSendChan(target) found no local channel, and every channel send the function itself
+// makes sits in a select with a default arm. Otherwise, once more receivers hold a pending watermark than the
+// channel has room for, RegisterShard never returns, the sender never starts, and the tasks read for that target are
+// never sent.
+func checkReplayNeverBlocksRegistration(c *Ctx, res *report.Result, rule string) {
+	for _, recv := range []string{"*proxyStreamReceiver", "*intraProxyStreamReceiver"} {
+		f := resolve(c, res, rule, anchor{"proxy", recv, "sendPendingWatermarkToShard"})
+		if f == nil {
+			continue
+		}
+		what := "(" + recv + ").sendPendingWatermarkToShard"
+		// the local lookup
+		var lookup *ssa.Call
+		for _, call := range flow.Calls(f) {
+			if call.Common().IsInvoke() && call.Common().Method.Name() == "GetRemoteSendChan" {
+				lookup, _ = call.(*ssa.Call)
+			}
+		}
+		nDeliver := 0
+		for _, call := range flow.Calls(f) {
+			if !call.Common().IsInvoke() || call.Common().Method.Name() != "DeliverMessagesToShardOwner" {
+				continue
+			}
+			nDeliver++
+			okG := false
+			if lookup != nil {
+				for _, g := range flow.NormGuards(flow.Guards(call.Block())) {
+					if ex, isEx := g.Cond.(*ssa.Extract); isEx && ex.Tuple == ssa.Value(lookup) && ex.Index == 1 && !g.Side {
+						okG = true
+					}
+				}
+			}
+			res.Check(okG, rule, what+": the blocking hand-over is used only when the target has no local channel", instrPos(c.Prog, call), "DeliverMessagesToShardOwner under GetRemoteSendChan(target) == not found", "the replay goes through the blocking DeliverMessagesToShardOwner also for a target with a local channel: it runs inside RegisterShard, before that target's sender starts draining the channel, so with more pending watermarks than the channel has room for the registration never returns and the sender never starts")
+		}
+		// the function's own sends (also inside the called literals) are non-blocking
+		fns := append([]*ssa.Function{f}, flow.AnonFuncsDeep(f)...)
+		nSend := 0
+		for _, g := range fns {
+			for _, b := range g.Blocks {
+				for _, ins := range b.Instrs {
+					switch x := ins.(type) {
+					case *ssa.Send:
+						nSend++
+						res.Viol(rule, what+": local replay is a non-blocking send", instrPos(c.Prog, x), "a plain channel send: it waits for room in the channel of a sender that has not started yet")
+					case *ssa.Select:
+						hasSend := false
+						for _, st := range x.States {
+							if st.Dir == types.SendOnly {
+								hasSend = true
+							}
+						}
+						if hasSend {
+							nSend++
+							res.Check(!x.Blocking, rule, what+": local replay is a non-blocking send", instrPos(c.Prog, x), "select with a default arm", "the select that sends the pending watermark has no default arm: it waits for room in the channel of a sender that has not started yet")
+						}
+					}
+				}
+			}
+		}
+		if nSend == 0 && nDeliver == 0 {
+			res.Undec(rule, what, fnPos(c.Prog, f), "neither a channel send nor a DeliverMessagesToShardOwner call found")
 		}
 	}
 }
